@@ -198,6 +198,33 @@ fn named_keys(s: &Value, out: &mut Vec<String>) {
     }
 }
 
+/// schema-directed: a key is "named" for an object only by the `properties` of the schema node that governs that
+/// object (reached from the root through `properties` / `items` / `$ref`); a key named somewhere else in the
+/// document is an additional property here, and repeated additional keys are not excluded by the property.
+/// Nodes with combinators (anyOf / oneOf / allOf) are not descended into.
+fn dup_key_directed(root: &Value, s: &Value, v: &JV, fuel: usize) -> Option<String> {
+    if fuel == 0 { return None; }
+    let s = match s.get("$ref").and_then(|r| r.as_str()) {
+        Some(r) => { let mut cur = root; for part in r.trim_start_matches("#/").split('/') { match cur.get(part) { Some(n) => cur = n, None => return None } } cur }
+        None => s,
+    };
+    if ["anyOf", "oneOf", "allOf"].iter().any(|k| s.get(*k).is_some()) { return None; }
+    match v {
+        JV::Obj(kvs) => {
+            let props = s.get("properties").and_then(|p| p.as_object());
+            for (i, (k, x)) in kvs.iter().enumerate() {
+                let named = props.map(|p| p.contains_key(k)).unwrap_or(false);
+                if named && kvs[..i].iter().any(|(k2, _)| k2 == k) { return Some(k.clone()); }
+                if named { if let Some(d) = dup_key_directed(root, &props.unwrap()[k], x, fuel - 1) { return Some(d); } }
+            }
+            None
+        }
+        JV::Arr(xs) => match s.get("items") { Some(it) if it.is_object() => xs.iter().find_map(|x| dup_key_directed(root, it, x, fuel - 1)), _ => None },
+        _ => None,
+    }
+}
+
+#[allow(dead_code)]
 fn dup_named_key(v: &JV, named: &[String]) -> Option<String> {
     match v {
         JV::Obj(kvs) => {
@@ -363,7 +390,7 @@ pub fn run_case(ctx: &Ctx, case: &Value, tag: usize, rep: &mut Report, mb: &mut 
             (Ok(_), Err(e)) => { rep.count("parsers.disagree"); let _ = e; /* serde_json limits (number range, recursion) are not part of the property */ }
         }
         let v = mine.unwrap();
-        if let Some(k) = dup_named_key(&v, &named) {
+        if let Some(k) = dup_key_directed(schema, schema, &v, 64) {
             rep.fail("oracle", "c06:duplicate-named-key", format!("complete output {:?} repeats the key {k:?} that `properties` names", String::from_utf8_lossy(out)), repro);
             return;
         }
